@@ -40,6 +40,7 @@ type c15Script struct {
 	asHostsAsked  []string // hosts of authorization-server metadata requests
 	prmNamesAS    string   // the authorization server the (valid) resource metadata names; "" = https://as.example
 	tokenAlwaysOK bool     // the token endpoint always answers with a token (no choice)
+	mcp           string   // URL of the MCP server whose 401 starts the flow (default c15MCP)
 }
 
 const c15RedirectHost = "redirect-target.example"
@@ -75,8 +76,11 @@ func (rt c15RT) RoundTrip(req *http.Request) (*http.Response, error) {
 	switch {
 	case strings.Contains(u.Path, "oauth-protected-resource") || u.Path == "/prm-from-challenge":
 		resource := c15MCP
+		if s.mcp != "" {
+			resource = s.mcp
+		}
 		if u.Path == "/.well-known/oauth-protected-resource" {
-			resource = "https://mcp.example"
+			resource = strings.TrimSuffix(resource, "/mcp")
 		}
 		doc := func(res string, servers ...string) string {
 			b, _ := json.Marshal(map[string]any{"resource": res, "authorization_servers": servers, "scopes_supported": []string{"s"}})
@@ -264,7 +268,14 @@ func c15Run(ch *verifx.Chooser) (obs, bad, sig string, steps int) {
 	if err != nil {
 		return "config-rejected", "", "", 0
 	}
-	req, _ := http.NewRequest("POST", c15MCP, nil)
+	mcpURL := c15MCP
+	if ch.Fault("mcp-server-origin", 2) == 1 {
+		// the MCP server itself sits on a plain-http, non-loopback origin: nothing of the flow may be
+		// sent there (or to anything derived from it)
+		mcpURL = "http://mcp-plain.example/mcp"
+		s.mcp = mcpURL
+	}
+	req, _ := http.NewRequest("POST", mcpURL, nil)
 	resp := &http.Response{StatusCode: 401, Header: http.Header{}, Body: io.NopCloser(strings.NewReader(""))}
 	switch ch.Fault("challenge", 5) {
 	case 0:
